@@ -6,38 +6,12 @@ from sa.core import AnalysisError, unparse, walk_no_nested, stmt_text, call_name
 from sa.logic import path_condition, excludes
 from sa.consteval import ConstEnv
 
-EXPL = ('Decides writer/reader/evaluator agreement for the policy file format: (1) every active `key = value` line the template in Policy.create can emit is a key the constructor accepts, is parsed by the inverse of the idiom that '
-        'serialised it, lands in the private field that Policy.evaluate compares with the very accessor create() serialised (triangle label -> field -> accessor); (2) the line parser\'s split on the key/value separator does not constrain the value '
-        'although serialised values can contain the separator (the alphabet is taken from the rating table itself: names containing "="); (3) for each covered attribute evaluate() has a failing site that is live when both relaxation flags are false, '
-        'and the generated policy sets both flags false; (3b) Policy.evaluate is abstractly interpreted (sa/listinterp.py) on a representative policy state against the peer it was made from (every path: verdict True, no error) and against 40+ single-attribute perturbations of that peer -- names added / removed / reordered in each list, each host-key size, CA size, CA type, group-exchange modulus changed -- where every path must return False and append an error naming the field; (4) satisfiability conditions of all built-in policies (required/optional host keys disjoint, size maps refer to listed names); (5) -M and -P are wired to the scan\'s own KEXINIT object and role mismatches '
-        'exit before connecting. Not decided: byte-level round trip of names outside the RFC 4251 alphabet, and that a passing policy prints no errors.')
-
-# label in the policy file -> (private field, accessor serialised by create / compared by evaluate, serialiser idiom)
-TRIANGLE = {
-    'host keys': ('_host_keys', 'kex.key_algorithms', 'join'),
-    'key exchanges': ('_kex', 'kex.kex_algorithms', 'join'),
-    'ciphers': ('_ciphers', 'kex.server.encryption', 'join'),
-    'macs': ('_macs', 'kex.server.mac', 'join'),
-    'host_key_sizes': ('_hostkey_sizes', 'kex.host_keys()', 'json'),
-    'dh_modulus_sizes': ('_dh_modulus_sizes', 'kex.dh_modulus_sizes()', 'json'),
-}
-EVAL_LABELS = ['Host keys', 'Key exchanges', 'Ciphers', 'MACs', 'Host key (%s) sizes', 'CA signature type', 'CA signature size (%s)', 'Group exchange (%s) modulus sizes']
-
-
-def template_lines(tmpl):
-    """[(line text, [placeholder indices])] for a %-template."""
-    out = []
-    idx = 0
-    for line in tmpl.split('\n'):
-        ph = []
-        for m in re.finditer(r'%(%|s|d|u|r)', line):
-            if m.group(1) == '%':
-                continue
-            ph.append(idx)
-            idx += 1
-        out.append((line, ph))
-    return out
-
+EXPL = ('Decides the policy file round trip by abstract interpretation (sa/listinterp.py, props/_policy.py): (1) Policy.create is interpreted on a peer -> the policy text; the constructor is interpreted on that text -> the policy state; '
+        'the state must hold exactly what the peer presented (lists in order, size maps with CA fields, both relaxation flags off, nothing else constrained) for peers with certificates and group exchange, with names containing "=", "+", "/", "@" and upper case, '
+        'without probed keys, and for a client; the policy must load without error and pass on that very peer; (2) Policy.evaluate is interpreted on THAT loaded state against 40+ single-attribute perturbations of the peer -- names added / removed / reordered in each list, '
+        'every host-key and CA size up and down, CA type changed, every group-exchange modulus up and down -- and must fail naming the field; (3) the size-map normaliser only adds missing defaults; the CA type / size of a presented certificate is captured (KexDH.recv_reply interpreted per blob layout); '
+        '(4) on every path of a server audit both probes (host keys, group exchange) run before a policy is written or evaluated (must-pass-through on the CFG of audit()); (5) every built-in policy is satisfiable by a peer configured exactly as listed; a role mismatch makes the program '
+        'exit before connecting. Decided for the enumerated peer families, not for all peers; not decided: byte-level round trip of names outside the RFC 4251 alphabet.')
 
 def run(repo, rep, tier):
     rep.explanation = EXPL
@@ -107,7 +81,10 @@ def run(repo, rep, tier):
         loaded[desc] = (peer_, st_)
         # and it passes on that very peer
         if not diffs:
-            for verdict, errs, r_, forks in _policy.run(repo, pconsts, {k_: st_[k_] for k_ in _policy.POLICY}, peer_, subset=False, larger=False):
+            res_ = _policy.run(repo, pconsts, {k_: st_[k_] for k_ in _policy.POLICY}, peer_, subset=False, larger=False)
+            if len(res_) != 1 or res_[0][3]:
+                raise AnalysisError('Policy.evaluate: the verdict for the peer the policy was made from depends on a condition the analysis does not model: %s' % [f_ for v_, e_, r__, f_ in res_][:2])
+            for verdict, errs, r_, forks in res_:
                 rep.evals()
                 rep.check('roundtrip', 'the policy made from %s passes on that peer with no errors' % desc, verdict is True and not errs, ev_,
                           'the policy made from %s FAILS on that very peer (verdict %s, errors %s)' % (desc, verdict, [e_.get('mismatched_field') for e_ in errs]), stmt='same peer: %s' % desc)
@@ -366,7 +343,4 @@ def run(repo, rep, tier):
     # written file = policy_data
     wr = [n for n in walk_no_nested(mp) if isinstance(n, ast.Call) and unparse(n.func) == 'f.write']
     rep.check('wiring', 'the file written is exactly Policy.create\'s text', len(wr) == 1 and unparse(wr[0].args[0]) == 'policy_data', wr[0] if wr else mp, 'policy file contents changed')
-    # client role marker
-    cps = [n for n in walk_no_nested(cr) if isinstance(n, ast.Assign) and unparse(n.targets[0]) == 'client_policy_str' and isinstance(n.value, ast.Constant) and 'client policy = true' in n.value.value]
-    ok = len(cps) == 1 and [(unparse(t), p) for t, p, k in path_condition(cps[0])] == [('client_audit', True)]
-    rep.check('wiring', 'a policy made from a client audit is marked as a client policy', ok, cps[0] if cps else cr, 'client policy marker changed')
+    # (client role marker: decided by the round trip above -- the policy written for a client loads as a client policy)
